@@ -1555,6 +1555,21 @@ func (c *Cluster) PinUpdate(ctx context.Context, from cid.Cid, to cid.Cid, opts 
 		return nil, errors.New("this pin type cannot be updated")
 	}
 
+	// When the destination is already pinned, do the same checks as for
+	// a regular re-pin (see setupPin) rather than blindly overwriting it.
+	toPin, err := c.PinGet(ctx, to)
+	if err != nil && err != state.ErrNotFound {
+		return nil, err
+	}
+	if err == nil && !to.Equals(from) {
+		if toPin.Type != existing.Type {
+			return nil, fmt.Errorf("cannot update to a CID pinned with a different tracking method (%s)", toPin.Type)
+		}
+		if toPin.Mode == api.PinModeRecursive && existing.Mode != api.PinModeRecursive {
+			return nil, errors.New("cannot update to a CID which is already pinned in recursive mode from a direct pin")
+		}
+	}
+
 	existing.Cid = to
 	existing.PinUpdate = from
 	if opts.Name != "" {
